@@ -208,7 +208,10 @@ func pingApply(op string, raw json.RawMessage) interface{} {
 			}
 		}()
 	}
-	wg.Wait()
+	if !verifTimed(120*time.Second, func() { wg.Wait() }) {
+		// pings are stuck: notice delivery on this node is wedged
+		return map[string]interface{}{"wedged": true}
+	}
 	return map[string]interface{}{"pings": a.Workers * a.Each, "expired_reported_by_me": expired, "other": other}
 }
 
